@@ -454,6 +454,11 @@ func c04Explore(c *core.Ctx, r *core.Report, T *types.Named) {
 	name := "registry:" + T.Obj().Name()
 	pos := c.Pos(T.Obj().Pos())
 	type node struct{ ops []regOp }
+	maxCreate, maxEarly, maxHist := 2, 3, 14
+	if c.Tier == "thorough" {
+		maxCreate, maxEarly, maxHist = 3, 5, 22
+	}
+	r.Extra["bounds"] = map[string]int{"creations": maxCreate, "early_runs": maxEarly, "history_length": maxHist}
 	seen := map[string]bool{}
 	queue := []node{{nil}}
 	viol := map[string]string{}
@@ -495,7 +500,7 @@ func c04Explore(c *core.Ctx, r *core.Report, T *types.Named) {
 			if len(sampleHist) < 6 && len(n.ops) >= 4 {
 				sampleHist = append(sampleHist, d.hist()+"  ⇒ cells{"+d.st.key()+"}")
 			}
-			if len(n.ops) >= 14 {
+			if len(n.ops) >= maxHist {
 				continue
 			}
 			// successors
@@ -503,16 +508,16 @@ func c04Explore(c *core.Ctx, r *core.Report, T *types.Named) {
 			next = append(next, regOp{kind: "Q"})
 			for _, allow := range []bool{true, false} {
 				next = append(next, regOp{kind: "L", allow: allow, earlyOK: true})
-				if d.mon.nEarly < 3 {
+				if d.mon.nEarly < maxEarly {
 					next = append(next, regOp{kind: "L", allow: allow, earlyOK: false})
 				}
 			}
-			if d.mon.nEarly >= 3 {
+			if d.mon.nEarly >= maxEarly {
 				// bound on early tokens reached: do not extend with lookups that could mint more
 				next = next[:1]
 			}
 			if !d.mon.inCreation {
-				if d.mon.nCreate < 2 {
+				if d.mon.nCreate < maxCreate {
 					next = append(next, regOp{kind: "B"})
 				}
 			} else {
